@@ -1485,6 +1485,14 @@ public:
         graphidToE_.at(*currEdge) = 00;
 
         EToGraphid_.erase(edgeObject);
+
+        // the index of the deleted edge is free again
+        typename std::map<Eref, EdgeIndex>::iterator foundIndex = EToIndex_.find(edgeObject);
+        if (foundIndex != EToIndex_.end())
+        {
+          indexToE_.at(foundIndex->second) = 00;
+          EToIndex_.erase(foundIndex);
+        }
       }
     }
   }
@@ -1503,6 +1511,14 @@ public:
         graphidToN_.at(*currNode) = 00;
 
         NToGraphid_.erase(nodeObject);
+
+        // the index of the deleted node is free again
+        typename std::map<Nref, NodeIndex>::iterator foundIndex = NToIndex_.find(nodeObject);
+        if (foundIndex != NToIndex_.end())
+        {
+          indexToN_.at(foundIndex->second) = 00;
+          NToIndex_.erase(foundIndex);
+        }
       }
     }
   }
